@@ -6,32 +6,6 @@ open Nima
 /-! ### summaries: a piece list read as leading whitespace, first token, "everything between is in
 normal form", trailing whitespace -/
 
-/-- is `w` an acceptable separator in front of the token/comment `x`: formatter normal form
-    (`""`, `" "`, one or two line breaks followed by spaces), and nothing at all in front of `;` -/
-def sepOk (w : Text) (x : Lex) : Bool := isNormalSep w && (x != .tok [';'] || w.isEmpty)
-
-inductive Summ where
-  /-- whitespace only -/
-  | blank (w : Text)
-  /-- leading whitespace, first token/comment, all inner separators acceptable, trailing whitespace -/
-  | lexy (lead : Text) (first : Lex) (inner : Bool) (trail : Text)
-deriving DecidableEq, Repr
-
-def Summ.comb : Summ → Summ → Summ
-  | .blank w, .blank w' => .blank (w ++ w')
-  | .blank w, .lexy l f i t => .lexy (w ++ l) f i t
-  | .lexy l f i t, .blank w => .lexy l f i (t ++ w)
-  | .lexy l f i t, .lexy l' f' i' t' => .lexy l f (i && sepOk (t ++ l') f' && i') t'
-
-def summ1 : FP → Summ
-  | .ws s => .blank s
-  | .tok s => .lexy [] (.tok s) true []
-  | .cmt s => .lexy [] (.cmt s) true []
-
-def summ : List FP → Summ
-  | [] => .blank []
-  | p :: rest => (summ1 p).comb (summ rest)
-
 theorem comb_assoc (a b c : Summ) : (a.comb b).comb c = a.comb (b.comb c) := by
   cases a <;> cases b <;> cases c <;> simp [Summ.comb, List.append_assoc, Bool.and_assoc]
 
@@ -47,12 +21,6 @@ theorem summ_ws (s : Text) : summ [.ws s] = .blank s := by simp [summ, summ1, Su
 theorem summ_tok (s : Text) : summ [.tok s] = .lexy [] (.tok s) true [] := by simp [summ, summ1, Summ.comb]
 theorem summ_cmt (s : Text) : summ [.cmt s] = .lexy [] (.cmt s) true [] := by simp [summ, summ1, Summ.comb]
 theorem summ_cons (p : FP) (rest : List FP) : summ (p :: rest) = (summ1 p).comb (summ rest) := rfl
-
-/-- THE NORMAL FORM of a whole output: no whitespace before the first token, every separator
-    acceptable, at most one blank line at the end -/
-def Summ.fileOk : Summ → Bool
-  | .blank w => w.isEmpty
-  | .lexy l _ i t => l.isEmpty && i && (t == [] || t == ['\n'] || t == ['\n', '\n'])
 
 def nl (n : Nat) : Text := List.replicate n '\n'
 
@@ -781,13 +749,6 @@ theorem wrap_summ {before : List Trivia} (hok : TrivOk before) (ha : Alt before)
       sepOk_space _ (cmt_ne_semi s)]
 
 /-! ### expressions -/
-
-/-- the trailing trivia an expression is rendered with -/
-def Expr.effAfter : Expr → Bool → List Trivia
-  | .binding _ v _ _ a, na => v.after ++ (if na then [] else a)
-  | .leaf _ _ _ a, na => if na then [] else a
-  | .list _ _ _ _ a, na => if na then [] else a
-  | .set _ _ _ _ _ a, na => if na then [] else a
 
 def nonLastClosed : List Expr → Prop
   | [] => True
